@@ -73,8 +73,7 @@ def _job(args):
                 npts += 1
                 for nr in nat:
                     if nr['canary']:
-                        if nr['ok']:
-                            cross_bad.append(dict(point=str(pt.seed), **nr, why='canary holds natively'))
+                        continue
                     elif not nr['ok']:
                         cross_bad.append(dict(point=_point_dump(fresh), **nr))
             out['cross'] = dict(points=npts, bad=cross_bad[:20])
@@ -167,6 +166,7 @@ def finish(prop, mod, tier, seed, outs, extra, t0):
     samples = []
     paths = 0
     canaries = 0
+    canary_state = {}
     cross_points = 0
     notes = set()
     snaps = set()
@@ -201,9 +201,8 @@ def finish(prop, mod, tier, seed, outs, extra, t0):
                 undecided.append(dict(name=nm, detail='denominator not shown non-zero: ' + dv['status']))
         for r in o['results']:
             if r['canary']:
-                canaries += 1
-                if r['status'] != 'refuted':
-                    faults.append(f"canary {r['name']} was not refuted ({r['status']})")
+                base = r['name'].split('@p')[0]
+                canary_state.setdefault(base, []).append(r['status'])
                 continue
             obligations += 1
             names.append(r['name'])
@@ -221,6 +220,12 @@ def finish(prop, mod, tier, seed, outs, extra, t0):
                     violations.append((o, r))
             else:
                 undecided.append(dict(name=r['name'], detail=r['detail'][:300]))
+    for base, sts in canary_state.items():
+        # a canary is a deliberately false obligation: it must be refuted on at least one path
+        if 'refuted' in sts:
+            canaries += 1
+        else:
+            faults.append(f"canary {base} was not refuted on any path ({sorted(set(sts))})")
     for e in extra:
         # extra checks (static analysers, bounded run-time contracts, lean) use the same record shape
         notes.update(e.get('notes', []))
